@@ -185,7 +185,7 @@ def gen_case(rng, tier):
     for iid in live:
         if rng.random() < 0.5:
             ops.append({"op": "iter_drain", "id": iid})
-    return {"ops": ops}
+    return {"ops": ops, "keep_memo": rng.random() < 0.4}
 
 
 def cases(rng, tier):
@@ -236,7 +236,7 @@ def execute(case):
     hist = histsim.Hist()
     out = hist.out
     memo = getattr(pm.Perm, "_to_standard", None)
-    if hasattr(memo, "cache_clear"):
+    if hasattr(memo, "cache_clear") and not case.get("keep_memo"):
         memo.cache_clear()
     cached_keys = {}
     state = {"flooded": False, "cleared": False}
